@@ -9,8 +9,12 @@ GeffProps.C12.  Four case kinds:
                    validate_data(graph=True) for directed and undirected metadata;
   sphere           radius arrays (any rank, int/float dtypes, optional missing mask) through validate_data;
   ellipsoid_shape  axes x covariance shapes (the stages before the float linear algebra);
-  ellipsoid_float  DIFFERENTIAL ONLY (no Lean model): stacks clearly inside / clearly outside the symmetric
-                   positive-definite set for 1, 2, 3 space axes, masked rows holding junk;
+  ellipsoid_float  DIFFERENTIAL ONLY for the float tests (no Lean model of np.allclose / eigvals): stacks clearly
+                   inside / clearly outside the symmetric positive-definite set for 1, 2, 3 space axes, masked rows
+                   holding junk; the mask logic around the two tests IS modelled (validateEllipsoid, which takes
+                   the per-matrix verdicts of the two numpy tests as given) and compared;
+  lineage_masked   validate_data(lineage=True) on id properties with a missing mask (repair D14): all digraphs on
+                   <=3 nodes x masks x labellings + TrackMate-like forests with lone unlabelled spots;
   dispatch         all 2^5 configs x declarations x which validators' data is invalid; the validators are
                    wrapped to record which ones are evaluated.
 
@@ -469,7 +473,22 @@ def impl_ell_float(c):
     return _outcome(lambda: validate_data(g, ValidationConfig(ellipsoid=True)))
 
 
-def judge_ell_float(ck, c, im):
+def ell_float_req(c):
+    """per-matrix verdicts of the two numpy tests (the model takes them as given)"""
+    d = c["d"]
+    a = np.array(c["mats"], dtype=np.float64).reshape(-1, d, d)
+    sym, pd = [], []
+    for m in a:
+        sym.append(bool(np.allclose(m, m.T)))
+        try:
+            pd.append(bool(np.all(np.linalg.eigvals(m) > 0)))
+        except Exception:  # noqa: BLE001  (NaN / inf entries)
+            pd.append(False)
+    return {"op": "ellipsoid", "axes": ["time"] + ["space"] * d, "shape": list(a.shape), "sym": sym, "pd": pd,
+            "missing": c["missing"]}
+
+
+def judge_ell_float(ck, c, im, mo=None):
     has_junk = c["missing"] is not None and any(c["missing"])
     ck.case(c, f"ellipsoid_float:d={c['d']}:{c['why']}" + (":junk-under-mask" if has_junk else ""), nontrivial=bool(c["mats"]))
     if im["o"] != c["expect"]:
@@ -484,6 +503,11 @@ def judge_ell_float(ck, c, im):
         else:
             key, what = "C12:ellipsoid-exception", f"validate_ellipsoid raised {im['o']}"
         ck.fail(key, what, c, im, c["expect"])
+    if mo is not None:
+        if "err" in mo:
+            ck.corr_broken("C12:driver", c, im, mo)
+        elif mo["o"] != im["o"] or (im["o"] == "ValueError" and mo.get("msg") != im.get("msg")):
+            ck.corr_broken("C12:validateEllipsoid(mask logic; float tests given per matrix)", c, im, mo)
 
 
 # ======================================================================= dispatch
@@ -609,9 +633,118 @@ def judge_dispatch(ck, c, im, mo):
                            {"calls": mcalled, "error_from": mfail})
 
 
+# ======================================================================= lineage ids with a missing mask (D14)
+def lineage_oracle(c):
+    """C14's definition on the labelled nodes: every id class is exactly one weakly connected component of the
+    whole graph (unlabelled nodes and phantom endpoints included as vertices)"""
+    m = c["missing"]
+    keep = [i for i in range(len(c["nodes"])) if m is None or not m[i]]
+    nodes = [c["nodes"][i] for i in keep]
+    labels = [c["labels"][i] for i in keep]
+    parent = {}
+
+    def find(x):
+        parent.setdefault(x, x)
+        while parent[x] != x:
+            parent[x] = parent[parent[x]]
+            x = parent[x]
+        return x
+    for n in c["nodes"]:
+        find(n)
+    for u, v in c["edges"]:
+        parent[find(u)] = find(v)
+    comp = {}
+    for x in list(parent):
+        comp.setdefault(find(x), set()).add(x)
+    classes = {}
+    for n, l in zip(nodes, labels):
+        classes.setdefault(l, set()).add(n)
+    bad = [l for l, cls in classes.items() if comp[find(next(iter(cls)))] != cls]
+    return not bad, bad
+
+
+def impl_lineage(c):
+    from geff.validate.data import ValidationConfig, validate_data
+
+    m = c["missing"]
+    md = _meta(track={"lineage": "lin"}, props=[("lin", "int64")])
+    g = {"metadata": md, "node_ids": np.asarray(c["nodes"], dtype=np.int64),
+         "edge_ids": np.asarray(c["edges"], dtype=np.int64).reshape(-1, 2),
+         "node_props": {"lin": {"values": np.asarray(c["labels"], dtype=np.int64),
+                                "missing": None if m is None else np.asarray(m, dtype=bool)}}, "edge_props": {}}
+    try:
+        validate_data(g, ValidationConfig(lineage=True))
+        return {"valid": True, "bad": []}
+    except ValueError as ex:
+        if len(ex.args) == 2 and str(ex.args[0]).startswith("Found invalid lineages"):
+            import re
+            return {"valid": False, "bad": [int(re.match(r"Lineage (-?\d+):", ln).group(1)) for ln in ex.args[1].split("\n")]}
+        return {"o": "ValueError"}
+    except Exception as ex:  # noqa: BLE001
+        return {"o": type(ex).__name__}
+
+
+def lineage_cases(rng, nmax, nrand):
+    from harness.corr.C13 import digraphs, set_partitions
+
+    for n in range(1, nmax + 1):
+        for edges in digraphs(n):
+            for mask in range(0, 2 ** n):
+                miss = [bool(mask >> i & 1) for i in range(n)]
+                present = [i for i in range(n) if not miss[i]]
+                for lab in set_partitions(len(present)):
+                    labels = [0] * n
+                    for i, x in zip(present, lab):
+                        labels[i] = x
+                    yield {"kind": "lineage_masked", "nodes": list(range(n)), "labels": labels, "edges": edges,
+                           "missing": miss if mask else None}
+    for _ in range(nrand):   # TrackMate-like: tracks (trees) plus lone unlabelled spots
+        n = rng.randint(2, 14)
+        nodes = rng.sample(range(0, 60), n)
+        edges, labels, missing = [], [0] * n, [False] * n
+        comp = list(range(n))
+        for i in range(1, n):
+            if rng.random() < 0.6:
+                j = rng.randrange(i)
+                edges.append([nodes[j], nodes[i]])
+                old, new = comp[i], comp[j]
+                comp = [new if x == old else x for x in comp]
+        for i in range(n):
+            lone = comp.count(comp[i]) == 1
+            if lone and rng.random() < 0.7:
+                missing[i] = True
+            else:
+                labels[i] = comp[i] + 1 if rng.random() < 0.5 else comp[i]
+        r = rng.random()
+        if r < 0.15:
+            missing[rng.randrange(n)] = True
+        elif r < 0.3:
+            labels[rng.randrange(n)] = rng.choice(labels)
+        yield {"kind": "lineage_masked", "nodes": nodes, "labels": labels, "edges": edges, "missing": missing}
+
+
+def judge_lineage(ck, c, im, mo):
+    want_valid, want_bad = lineage_oracle(c)
+    masked = c["missing"] is not None and any(c["missing"])
+    ck.case(c, "lineage_masked:" + ("valid" if want_valid else "invalid") + (":some-unlabelled" if masked else ""),
+            nontrivial=bool(c["edges"]) or len(c["nodes"]) > 1)
+    if "o" in im:
+        ck.fail("C12:lineage-masked-exception", f"validate_data(lineage=True) raised {im['o']}", c, im, want_valid)
+    elif im["valid"] != want_valid or im["bad"] != want_bad:
+        ck.fail("C12:lineage-ids-missing-mask-ignored" if masked else "C12:lineage-through-validate_data",
+                f"validate_data(lineage=True) gave valid={im['valid']} bad={im['bad']}; the labelled nodes' lineages are "
+                f"valid={want_valid} bad={want_bad}" + (" (ids flagged missing must not be read as lineage 0)" if masked else ""),
+                c, im, {"valid": want_valid, "bad": want_bad})
+    if mo is not None:
+        if "err" in mo or "o" in mo:
+            ck.corr_broken("C12:driver/lineage_masked", c, im, mo)
+        elif "o" not in im and (mo["valid"] != im["valid"] or [int(x) for x in mo["bad"]] != im["bad"]):
+            ck.corr_broken("C12:nodesWithId+validateLineages", c, im, mo)
+
+
 # ======================================================================= the check
 IMPL = {"graph": impl_graph, "sphere": impl_sphere, "ellipsoid_shape": impl_ell_shape,
-        "ellipsoid_float": impl_ell_float, "dispatch": impl_dispatch}
+        "ellipsoid_float": impl_ell_float, "dispatch": impl_dispatch, "lineage_masked": impl_lineage}
 
 
 def impl_obs(c):
@@ -630,6 +763,11 @@ def model_reqs(c):
         return [{"op": "ellipsoid_shape", "axes": c["axes"], "shape": c["shape"]}]
     if k == "dispatch":
         return [dispatch_req(c)]
+    if k == "ellipsoid_float":
+        return [ell_float_req(c)]
+    if k == "lineage_masked":
+        return [{"op": "lineage_masked", "nodes": [str(x) for x in c["nodes"]], "labels": [str(x) for x in c["labels"]],
+                 "edges": [[str(a), str(b)] for a, b in c["edges"]], "missing": c["missing"]}]
     return []
 
 
@@ -651,17 +789,18 @@ def alphabet_min(dt):
 
 def run(ck: common.Check):
     ck.prove(["GeffProps.C12"])
-    ck.rule = ("graph: corpus + ALL id lists (<=3) x edge lists (<=2 quick / <=3 thorough) over the alphabet {0,1,max(dtype)} "
+    ck.rule = ("graph: corpus + ALL id lists (<=3) x edge lists (<=3) over the alphabet {0,1,max(dtype)} "
                "(and {min,1,max} for <=2 ids, <=2 edges), dtypes round-robin over the 8 integer dtypes (thorough: every dtype "
                "for <=2 ids, <=2 edges), each evaluated for the four validators and for validate_data under directed and "
                "undirected metadata + seeded random mostly-valid graphs with single defects and values at the dtype limits; "
                "sphere: special values (+-0, +-inf, NaN, denormals) x mask + random arrays of rank 0-3; ellipsoid_shape: axes "
                "lists with 0-4 space axes x shapes of rank 0-5 with extents 0-4; ellipsoid_float (differential only): A=B^T B+I "
                "vs asymmetry>=0.1 or an eigenvalue<=-0.1, junk under the mask; dispatch: all 2^5 configs x 20 declarations x "
-               "invalid-data sets x data present/absent; non-trivial = non-empty input / some flag on")
+               "invalid-data sets x data present/absent; lineage_masked: all digraphs on <=3 nodes x every missing mask x "
+               "labellings of the rest + random forests with lone unlabelled nodes; non-trivial = non-empty input / some flag on")
     cases = list(corpus())
     n_corpus = len(cases)
-    ne = 2 if ck.quick else 3
+    ne = 3
     cases.extend(graph_exhaustive(alphabet_of, 3, ne, INT_DTYPES))
     cases.extend(graph_exhaustive(alphabet_min, 2, 2, INT_DTYPES))
     if not ck.quick:
@@ -675,6 +814,7 @@ def run(ck: common.Check):
     cases.extend(ell_shape_cases(full=not ck.quick))
     cases.extend(ell_float_cases(ck.rng, 1200 if ck.quick else 15000))
     cases.extend(dispatch_cases(full=not ck.quick))
+    cases.extend(lineage_cases(ck.rng, 3, 1500 if ck.quick else 20000))
     ck.extra["corpus_cases"] = n_corpus
     ck.extra["graph_exhaustive_cases"] = n_exh
 
@@ -700,11 +840,13 @@ def run(ck: common.Check):
         elif k == "ellipsoid_shape":
             judge_ell_shape(ck, c, im, mo[0] if mo else None)
         elif k == "ellipsoid_float":
-            judge_ell_float(ck, c, im)
+            judge_ell_float(ck, c, im, mo[0] if mo else None)
         elif k == "dispatch":
             judge_dispatch(ck, c, im, mo[0] if mo else None)
+        elif k == "lineage_masked":
+            judge_lineage(ck, c, im, mo[0] if mo else None)
     ck.extra["cases_per_kind"] = per_kind
-    ck.extra["partial"] = ("symmetric / positive-definite (np.allclose + np.linalg.eigvals) has NO Lean model: it is decided by "
+    ck.extra["explanation"] = ("symmetric / positive-definite (np.allclose + np.linalg.eigvals) has NO Lean model: it is decided by "
                            "differential testing only (kind ellipsoid_float), on matrices clearly inside or clearly outside the set")
     ck.assumptions += [
         "numpy unique / isin / == / sort are exact on same-dtype integer arrays up to 2^64-1 (model integers are unbounded "
@@ -745,6 +887,8 @@ def replay(rp):
         judge_ell_float(r, c, im)
     elif k == "dispatch":
         judge_dispatch(r, c, im, None)
+    elif k == "lineage_masked":
+        judge_lineage(r, c, im, None)
     print(json.dumps({"case": c, "impl": im, "failures": r.f}, default=str))
     print("REPLAY: property holds on this input" if not r.f else "REPLAY: property FAILS on this input")
     return 0 if not r.f else 1
